@@ -73,7 +73,9 @@ var extraProps = map[string][]string{
 	// C09 (linearizable Raft store): the per-server state is one copy shared by the five archetypes, under 2PL
 	"RAFT-WIRING": {"C09"}, "LS-2PL": {"C09"}, "LS-CAP1": {"C09"},
 	// C02: the driver's part of a step (what a critical section's outcome leads to) belongs to "takes exactly the steps"
-	"CS-ORDER": {"C02", "C18", "C17"}, "CS-DIRTY": {"C02"}, "ERR-PROPAGATE": {"C02"}, "RES-NOREBIND": {"C02"},
+	"CS-ORDER": {"C02", "C18", "C17"},
+	// C03: `=` is an operator too - equality of the value kinds is decided under "operators evaluate as TLA+ defines"
+	"VAL-DECISION": {"C03"}, "DATA-ENCAPSULATED": {"C03"}, "EQ-NILSAFE": {"C03"}, "CS-DIRTY": {"C02"}, "ERR-PROPAGATE": {"C02"}, "RES-NOREBIND": {"C02"},
 	// C16: the shared counter rests on the 2PC resource, the CRDT systems on the CRDT value types
 	"TPC-ACCEPTOR": {"C16"}, "TPC-DECISION": {"C16"}, "TPC-VERSION": {"C16"}, "TPC-RELEASE": {"C16"}, "TPC-EXHAUST": {"C16"},
 	"TPC-POISON": {"C16"}, "TPC-RETRY": {"C16"}, "TPC-COMMITTED-ONLY": {"C16"},
